@@ -248,6 +248,28 @@ type c19Outcome struct {
 
 var errC19Body = errors.New("c19 deliberate body panic")
 
+// what the called function panics with: its own sentinel, or something that looks as if it came out of the reflect
+// package or the runtime (a function that uses reflection, indexes a slice, ... panics like that): whatever it is, it
+// is the function's own panic and propagates unchanged
+var c19ValueError = &reflect.ValueError{Method: "reflect.Value.Int", Kind: reflect.String}
+
+func (k *c19Case) panicValue() any {
+	switch (len(k.in)*7 + len(k.out)*3 + len(k.args)) % 4 {
+	case 1:
+		return c19ValueError
+	case 2:
+		return "reflect: call of reflect.Value.Index on zero Value"
+	case 3:
+		return "reflect.Set: value of type int is not assignable to type string"
+	}
+	return errC19Body
+}
+
+func c19SamePanic(got, want any) bool {
+	defer func() { recover() }()
+	return got == want
+}
+
 // run executes the case against the library and compares with the reference.
 func (k *c19Case) run() *c19Outcome {
 	var (
@@ -259,7 +281,7 @@ func (k *c19Case) run() *c19Outcome {
 		calls++
 		gotArgs = append([]reflect.Value(nil), args...)
 		if k.bodyPanic {
-			panic(errC19Body)
+			panic(k.panicValue())
 		}
 		rs := make([]reflect.Value, len(k.out))
 		for i, t := range k.out {
@@ -326,7 +348,7 @@ func (k *c19Case) run() *c19Outcome {
 	})
 	ok := k.wellTyped() && k.targetsOK()
 	if pv != nil {
-		if ok && k.bodyPanic && pv == any(errC19Body) && calls == 1 {
+		if ok && k.bodyPanic && c19SamePanic(pv, k.panicValue()) && calls == 1 {
 			// the function's own panic propagated unchanged; targets must be untouched
 			for _, s := range snaps {
 				if !same(s.ptr.Elem(), s.old) {
